@@ -196,7 +196,7 @@ func (L *Loaded) interpretInit(p *ssa.Package) bool {
 
 // packages whose functions are interpreted but whose initialiser is not run, each with the reason this is harmless
 var initSkipOK = map[string]string{
-	"errors": "its only package-level state is errorType (reflectlite), used by errors.As, which is not modelled (aborts)",
+	"errors": "its only package-level state is errorType (reflectlite), used by the real errors.As; the engine has its own errors.As (go/types assignability over the Unwrap tree)",
 }
 
 var denyPrefixes = []string{"github.com/tink-crypto/", "github.com/aws/", "crypto/", "net/", "runtime/", "internal/", "google.golang.org/", "tailscale.com/client/", "tailscale.com/tsnet", "tailscale.com/metrics"}
